@@ -10,12 +10,18 @@
    abstract adapter (C12_statement3_refuted: its premises do not make a text accepted by normalize_validate a fixed point
    of map_normalize, so clause a_of_u fails); C12_statement4 (Proofs/Idna_C12c_Stmt4.v) adds that premise, NvMapFix
    (sampled as ok_nv_mapfix), and is stated; C12_round_partial proves its clauses u_of_a, a_of_u and u_idem on the class
-   of names without an accepted xn-- input label (PunyIn d = false); see theorem_notes in tools/props_d/C12.py. *)
+   of names without an accepted xn-- input label (PunyIn d = false).  C12_statement4 still misses one adapter premise for
+   names WITH an accepted xn-- input label (NvNoGrow: normalize_validate never returns its argument followed by more text;
+   after_punycode_decode compares the two texts with a zip that stops at the shorter); C12_statement5
+   (Proofs/Idna_C12d_Stmt5.v) adds it (sampled as nvnogrow) and is PROVED IN FULL: C12_5 - all four clauses, every accepted
+   byte string outside Known_C12 and Known_C10_long, every display policy; C12_all is the same without the exclusion of
+   Known_C11.  The Punycode fact behind it is C12_enc_dec_internal; see theorem_notes in tools/props_d/C12.py. *)
 From RU Require Import Base.Prelude Base.Utf8 Base.Utf8Facts Base.U32_c13 Gen.Tables Model.Punycode Model.Uts46
   Proofs.Idna_Sim Proofs.Idna_Api Proofs.Idna_Known Proofs.Idna_Hyp Proofs.Idna_C12 Proofs.Idna_Tables Proofs.Idna_PunyRT
   Proofs.Idna_C10b_Long Proofs.Idna_C10b_Stmt Proofs.Idna_C10b_AsciiInner Proofs.Idna_C10b_AsciiWalk Proofs.Idna_C12_Ascii
   Proofs.Idna_C10_Inner Proofs.Idna_WalkEnc Proofs.Idna_C10c_Drun Proofs.Idna_C10c_Example Proofs.Idna_C10c_Refute Proofs.Idna_C12b_Stmt3
-  Proofs.Idna_C10_Deny Proofs.Idna_WalkFun Proofs.Idna_C10d_CaseLoop Proofs.Idna_C12c_Virtual Proofs.Idna_C12c_UofA Proofs.Idna_C12c_Stmt4 Proofs.Idna_C10c_Drun Proofs.Idna_C12c_ULabel Proofs.Idna_C12c_Round.
+  Proofs.Idna_C10_Deny Proofs.Idna_WalkFun Proofs.Idna_C10d_CaseLoop Proofs.Idna_C12c_Virtual Proofs.Idna_C12c_UofA Proofs.Idna_C12c_Stmt4 Proofs.Idna_C10c_Drun Proofs.Idna_C12c_ULabel Proofs.Idna_C12c_Round
+  Proofs.Idna_C12d_EncDec Proofs.Idna_C12d_Round Proofs.Idna_C12d_UI Proofs.Idna_C12d_Stmt5.
 
 (* the four clauses on names of the fastest tier (lower-case letters and dots), every adapter *)
 Theorem C12_fast_partial : forall A cfg d deny hy p, bytes d -> fast_tier d d = None ->
@@ -208,6 +214,86 @@ Example C12_round_premises_hold :
   to_ascii lowsan4 true W_idem3 DENY_URL HCheck DIgnore = Ok (false, W_idem3_A) /\ Known_C10_long W_idem3_A = false /\
   to_unicode lowsan4 true W_idem3 DENY_URL HCheck = UI false [97; 46; 98; 252; 99; 104; 101; 114] false.
 Proof. split; [exact lowsan4_premises|exact c12_round_example]. Qed.
+
+(* THE FULL STATEMENT (C12_statement5 = C12_statement4 and the sampled premise NvNoGrow): for every byte string that ToASCII
+   accepts, outside Known_C12 (F-C12-1), Known_C11 and - on the ASCII form - Known_C10_long (F-C10-1), every deny list the
+   API can build, every hyphen mode, debug assertions on or off: ToUnicode of the ASCII form is ToUnicode of the name;
+   ToASCII of the Unicode form is the ASCII form; ToUnicode is idempotent; ToASCII of to_user_interface of the name under
+   EVERY display policy is the ASCII form.  Names with xn-- input labels (any case), non-ASCII labels, mapped characters,
+   ideographic dots, empty labels included *)
+Theorem C12_5 : forall A cfg, C12_statement5 A cfg.
+Proof. exact c12_5. Qed.
+Check C12_5 : forall A cfg,
+  AdapterOK A -> AdapterUSV A -> NvNoTrunc A -> NvIdem A -> AsciiNoMark A -> MapPrefix A -> NvMapFix A -> NvNoGrow A ->
+  forall d deny hy b a,
+  bytes d -> valid_deny deny -> Known_C12 A cfg d deny hy = false -> Known_C11 A cfg d deny hy = false ->
+  to_ascii A cfg d deny hy DIgnore = Ok (b, a) -> Known_C10_long a = false ->
+  let u := ui_text (to_unicode A cfg d deny hy) in
+  (ui_text (to_unicode A cfg a deny hy) = u /\ ui_err (to_unicode A cfg a deny hy) = false) /\
+  (exists b', to_ascii A cfg (utf8_encode u) deny hy DIgnore = Ok (b', a)) /\
+  (ui_text (to_unicode A cfg (utf8_encode u) deny hy) = u /\ ui_err (to_unicode A cfg (utf8_encode u) deny hy) = false) /\
+  (forall p, exists b', to_ascii A cfg (utf8_encode (ui_text (to_user_interface A cfg d deny hy p))) deny hy DIgnore = Ok (b', a)).
+Print Assumptions C12_5.
+
+(* the same WITHOUT the exclusion of Known_C11, and with: to_user_interface reports no error and does not panic *)
+Theorem C12_all : forall A cfg,
+  AdapterOK A -> AdapterUSV A -> NvNoTrunc A -> NvIdem A -> AsciiNoMark A -> MapPrefix A -> NvMapFix A -> NvNoGrow A ->
+  forall d deny hy b a, bytes d -> valid_deny deny -> Known_C12 A cfg d deny hy = false ->
+  to_ascii A cfg d deny hy DIgnore = Ok (b, a) -> Known_C10_long a = false ->
+  let u := ui_text (to_unicode A cfg d deny hy) in
+  (ui_text (to_unicode A cfg a deny hy) = u /\ ui_err (to_unicode A cfg a deny hy) = false) /\
+  (exists b', to_ascii A cfg (utf8_encode u) deny hy DIgnore = Ok (b', a)) /\
+  (ui_text (to_unicode A cfg (utf8_encode u) deny hy) = u /\ ui_err (to_unicode A cfg (utf8_encode u) deny hy) = false) /\
+  (forall p, ui_err (to_user_interface A cfg d deny hy p) = false /\ ui_panics (to_user_interface A cfg d deny hy p) = false /\
+     exists b', to_ascii A cfg (utf8_encode (ui_text (to_user_interface A cfg d deny hy p))) deny hy DIgnore = Ok (b', a)).
+Proof. exact c12_all. Qed.
+Check C12_all : forall A cfg,
+  AdapterOK A -> AdapterUSV A -> NvNoTrunc A -> NvIdem A -> AsciiNoMark A -> MapPrefix A -> NvMapFix A -> NvNoGrow A ->
+  forall d deny hy b a, bytes d -> valid_deny deny -> Known_C12 A cfg d deny hy = false ->
+  to_ascii A cfg d deny hy DIgnore = Ok (b, a) -> Known_C10_long a = false ->
+  let u := ui_text (to_unicode A cfg d deny hy) in
+  (ui_text (to_unicode A cfg a deny hy) = u /\ ui_err (to_unicode A cfg a deny hy) = false) /\
+  (exists b', to_ascii A cfg (utf8_encode u) deny hy DIgnore = Ok (b', a)) /\
+  (ui_text (to_unicode A cfg (utf8_encode u) deny hy) = u /\ ui_err (to_unicode A cfg (utf8_encode u) deny hy) = false) /\
+  (forall p, ui_err (to_user_interface A cfg d deny hy p) = false /\ ui_panics (to_user_interface A cfg d deny hy p) = false /\
+     exists b', to_ascii A cfg (utf8_encode (ui_text (to_user_interface A cfg d deny hy p))) deny hy DIgnore = Ok (b', a)).
+Print Assumptions C12_all.
+
+(* the eight premises are satisfiable, and a name with an xn-- INPUT label (upper-case letters in the prefix, the basic
+   code units and the digits: A.XN--Bcher-KVA) goes through the clauses; two display policies *)
+Example C12_5_premises_hold :
+  (AdapterOK lowsan4 /\ AdapterUSV lowsan4 /\ NvNoTrunc lowsan4 /\ NvIdem lowsan4 /\ AsciiNoMark lowsan4 /\ MapPrefix lowsan4 /\
+   NvMapFix lowsan4 /\ NvNoGrow lowsan4) /\
+  to_ascii lowsan4 true W_stmt5 DENY_URL HCheck DIgnore = Ok (false, W_stmt5_A) /\
+  Known_C12 lowsan4 true W_stmt5 DENY_URL HCheck = false /\ Known_C11 lowsan4 true W_stmt5 DENY_URL HCheck = false /\
+  PunyIn lowsan4 true W_stmt5 DENY_URL HCheck = true /\ Known_C10_long W_stmt5_A = false /\
+  to_unicode lowsan4 true W_stmt5 DENY_URL HCheck = UI false W_stmt5_U false /\
+  to_ascii lowsan4 true (utf8_encode W_stmt5_U) DENY_URL HCheck DIgnore = Ok (false, W_stmt5_A) /\
+  to_user_interface lowsan4 true W_stmt5 DENY_URL HCheck never_unicode = UI false W_stmt5_A false /\
+  to_user_interface lowsan4 true W_stmt5 DENY_URL HCheck even_len_policy = UI false W_stmt5_U false.
+Proof. split; [exact lowsan4_premises5|exact w_c12_stmt5]. Qed.
+
+(* the Punycode fact behind the xn-- input labels: C13_enc_dec transported to the Internal instantiations - what the u8
+   internal decoder reads from an all-ASCII text p (at most 1000 scalar values) is re-encoded by the internal-caller
+   encoder to p with its ASCII letters lower-cased (basic code units, delimiter and digits) *)
+Theorem C12_enc_dec_internal : forall cfg p s, Forall (fun b => b < 128) p -> N.of_nat (length p) <= U32_MAX ->
+  decode_with cfg U8Internal p = Ok s -> usv_list s -> (length s <= 1000)%nat ->
+  encode_internal cfg s = Ok (map to_lower p).
+Proof. exact enc_dec_internal. Qed.
+Check C12_enc_dec_internal : forall cfg p s, Forall (fun b => b < 128) p -> N.of_nat (length p) <= U32_MAX ->
+  decode_with cfg U8Internal p = Ok s -> usv_list s -> (length s <= 1000)%nat ->
+  encode_internal cfg s = Ok (map to_lower p).
+Print Assumptions C12_enc_dec_internal.
+
+Example C12_enc_dec_internal_premises_hold :
+  Forall (fun b => b < 128) [66; 99; 104; 101; 114; 45; 75; 86; 65] /\
+  decode_with true U8Internal [66; 99; 104; 101; 114; 45; 75; 86; 65] = Ok [98; 252; 99; 104; 101; 114] /\
+  usv_list [98; 252; 99; 104; 101; 114] /\
+  encode_internal true [98; 252; 99; 104; 101; 114] = Ok [98; 99; 104; 101; 114; 45; 107; 118; 97].
+Proof.
+  split; [repeat constructor|]. split; [vm_compute; reflexivity|].
+  split; [repeat constructor; unfold is_usv; lia|vm_compute; reflexivity].
+Qed.
 
 (* the per-label fact behind it: the fail-fast label step applied to the UTF-8 form of a non-ASCII text dbl that
    normalize_validate fixes, that passes the deny list and check_label and does not start with xn--, returns the buffer
